@@ -22,7 +22,7 @@ RULE = (
     "re-register a stopped id, run a small subroutine for an application (qalloc/qfree/set/add/array/store/load/ret_reg/"
     "ret_arr with generated operands, incl. faulting ones), receive a keep pair (recv_epr + scripted response), the network stack taking a "
     "physical qubit ahead of delivery, subroutines that stay suspended in a wait while other applications run (start / deliver / resume "
-    "as separate steps, up to three suspended at once), all through "
+    "as separate steps, up to three suspended at once, on two sockets, also into a virtual qubit that is still allocated so that the response has to wait), all through "
     "serialised messages; invariants after every step.  Thorough adds exhaustive enumeration of all histories to depth 5 "
     "over a reduced alphabet.  Non-trivial = >=2 applications alive at once and >=1 stop; distinct by history hash"
 )
@@ -88,6 +88,7 @@ class Runner13:
         self.msg_id = 0
         self.info = {"max_alive": 0, "stops": 0, "reinit": 0, "faults": 0, "epr": 0, "reserve": 0, "suspended": 0, "max_suspended": 0}
         self.reserved: List[int] = []  # physical qubits the network stack has taken for pairs it has not delivered yet
+        self.deferred: List[int] = []  # physical qubits of delivered pairs whose virtual qubit is still allocated (response waits)
         self.suspended: List[Dict[str, Any]] = []  # subroutines waiting for a pair (oldest request first)
 
     def case(self):
@@ -107,7 +108,7 @@ class Runner13:
         for a, m in self.model.items():
             if a != exclude:
                 s |= set(m.qubits.values())
-        return s | set(self.reserved)
+        return s | set(self.reserved) | set(self.deferred)
 
     def snapshot_app(self, a) -> Dict[str, Any]:
         from netqasm.sdk.shared_memory import SharedMemoryManager
@@ -239,12 +240,14 @@ class Runner13:
             self.reserved.append(p)
             self.info["reserve"] += 1
         elif k == "epr_start":
-            _, a, virt = op
+            _, a, virt = op[:3]
+            sock = op[3] if len(op) > 3 else 0
+            occupied = virt in self.model[a].qubits  # the pair is requested into a virtual qubit that is still allocated
             stepping = a
             from netqasm.lang.parsing.text import parse_text_subroutine
             from netqasm.backend.messages import deserialize_host_msg
 
-            sub = parse_text_subroutine(f"# NETQASM 0.0\n# APPID {a}\narray 1 @7\nstore {virt} @7[0]\narray 10 @8\nrecv_epr(1,0) 7 8\nwait_all @8[0:10]\nset R1 {40 + a}\nret_reg R1\n")
+            sub = parse_text_subroutine(f"# NETQASM 0.0\n# APPID {a}\narray 1 @7\nstore {virt} @7[0]\narray 10 @8\nrecv_epr(1,{sock}) 7 8\nwait_all @8[0:10]\nset R1 {40 + a}\nret_reg R1\n")
             self.msg_id += 1
             self.ex.yield_on_wait = True
             try:
@@ -265,28 +268,41 @@ class Runner13:
             m.regs = dict(snap["regs"])
             m.arrays[7] = [virt]
             m.arrays[8] = [None] * 10
-            self.suspended.append({"app": a, "virt": virt, "gen": gen, "delivered": False})
+            self.suspended.append({"app": a, "virt": virt, "gen": gen, "delivered": False, "sock": sock, "occupied": occupied, "sent": False})
             self.info["suspended"] += 1
             self.info["max_suspended"] = max(self.info["max_suspended"], len(self.suspended))
         elif k == "epr_deliver":
             # the link layer delivers one pair: it belongs to the oldest request still waiting for one
-            tgt = next(s_ for s_ in self.suspended if not s_["delivered"])
+            dsock = op[1] if len(op) > 1 else 0
+            tgt = next(s_ for s_ in self.suspended if not s_["sent"] and s_["sock"] == dsock)
             a, virt = tgt["app"], tgt["virt"]
             stepping = a
             from netqasm.qlink_compat import LinkLayerOKTypeK, ReturnType
 
+            # a response also has to wait when an earlier response of the same queue is still waiting (no overtaking)
+            must_wait = tgt["occupied"] or any(s_["sent"] and not s_["delivered"] and s_["sock"] == dsock for s_ in self.suspended if s_ is not tgt)
             if self.reserved:
                 p = self.reserved.pop(0)
+            elif must_wait:
+                p = self.ex._get_unused_physical_qubit()  # taken at delivery time, as a network stack does
             else:
                 used = self.used_model()
                 p = 0
                 while p in used:
                     p += 1
-            resp = LinkLayerOKTypeK(type=ReturnType.OK_K, create_id=5, logical_qubit_id=p, directionality_flag=1, sequence_number=6, purpose_id=0, remote_node_id=1, goodness=7, goodness_time=8, bell_state=0)
+            resp = LinkLayerOKTypeK(type=ReturnType.OK_K, create_id=5, logical_qubit_id=p, directionality_flag=1, sequence_number=6, purpose_id=dsock, remote_node_id=1, goodness=7, goodness_time=8, bell_state=0)
             try:
                 self.ex._handle_epr_response(resp)
             except Exception as e:
                 raise Failure(f"epr-deliver-raises:{type(e).__name__}", self.case(), f"{type(e).__name__}: {(str(e).splitlines() or [''])[0][:160]}")
+            tgt["sent"] = True
+            if must_wait:
+                # the virtual qubit is still allocated: the response has to wait on the controller, holding its physical qubit
+                self.deferred.append(p)
+                self.info["deferred"] = self.info.get("deferred", 0) + 1
+                self.info["max_alive"] = max(self.info["max_alive"], len(self.model))
+                self.check_invariants(before, None)
+                return
             tgt["delivered"] = True
             m = self.model[a]
             m.qubits[virt] = p
@@ -339,8 +355,10 @@ class Runner13:
                 seen[p] = (a, v)
         if set(seen) & set(self.reserved):
             raise Failure("reserved-qubit-mapped", self.case(), f"physical qubits {sorted(set(seen) & set(self.reserved))} were taken by the network stack for undelivered pairs but are mapped by an application")
-        if set(seen) | set(self.reserved) != set(ex._used_physical_qubit_addresses):
-            raise Failure("used-set-mismatch", self.case(), f"physical qubits marked in use {sorted(ex._used_physical_qubit_addresses)} vs mapped {sorted(seen)} + taken by the stack {sorted(self.reserved)}")
+        if set(seen) | set(self.reserved) | set(self.deferred) != set(ex._used_physical_qubit_addresses):
+            raise Failure("used-set-mismatch", self.case(), f"physical qubits marked in use {sorted(ex._used_physical_qubit_addresses)} vs mapped {sorted(seen)} + taken by the stack {sorted(self.reserved)} + held by waiting responses {sorted(self.deferred)}")
+        if len(ex._pending_epr_responses) != len(self.deferred):
+            raise Failure("waiting-responses", self.case(), f"{len(ex._pending_epr_responses)} responses wait on the controller; {len(self.deferred)} were delivered for virtual qubits that are still allocated")
         if set(ex._qubit_unit_modules) != set(self.model):
             raise Failure("app-set-mismatch", self.case(), f"controller has applications {sorted(ex._qubit_unit_modules)}, model {sorted(self.model)}")
         # 2./3. per application state
@@ -423,21 +441,52 @@ def make_machine(ctx, stt):
 
         @precondition(lambda self: len(self.r.model) >= 1 and len(self.r.suspended) < 3)
         @rule(i=st.integers(0, 5), v=st.integers(0, 3))
-        def epr_start(self, i, v):
+        def epr_start(self, i, v, sock=0, occupied=False):
             apps = [a for a in sorted(self.r.model) if a not in self._busy()]
             if not apps:
                 return
             a = apps[i % len(apps)]
             m = self.r.model[a]
             free = [x for x in range(m.unit_size) if x not in m.qubits]
+            held = sorted(m.qubits)
+            if occupied and held:
+                self._do(["epr_start", a, held[v % len(held)], sock])
+                return
             if not free:
                 return
-            self._do(["epr_start", a, free[v % len(free)]])
+            self._do(["epr_start", a, free[v % len(free)], sock])
 
-        @precondition(lambda self: any(not s_["delivered"] for s_ in self.r.suspended))
-        @rule()
-        def epr_deliver(self):
-            self._do(["epr_deliver"])
+        @precondition(lambda self: len(self.r.model) >= 1 and len(self.r.suspended) < 3)
+        @rule(i=st.integers(0, 5), v=st.integers(0, 3), sock=st.integers(0, 1), occupied=st.booleans())
+        def epr_start_any(self, i, v, sock, occupied):
+            self.epr_start(i, v, sock, occupied)
+
+        @precondition(lambda self: len([a for a in self.r.model if a not in self._busy()]) >= 2 and len(self.r.suspended) <= 1 and not any(not s_["sent"] for s_ in self.r.suspended))
+        @rule(i=st.integers(0, 5), s_=st.integers(0, 1))
+        def waiting_response_then_other_queue(self, i, s_):
+            """a response that has to wait (its virtual qubit is still allocated), then traffic on the other socket"""
+            apps = [a for a in sorted(self.r.model) if a not in self._busy()]
+            a, b = apps[i % len(apps)], apps[(i + 1) % len(apps)]
+            mb = self.r.model[b]
+            free_b = [x for x in range(mb.unit_size) if x not in mb.qubits]
+            if not free_b:
+                return
+            if not self.r.model[a].qubits:
+                self._do(["sub", a, [["qalloc", 0]]])
+            if self.dead or not self.r.model[a].qubits:
+                return
+            self._do(["epr_start", a, sorted(self.r.model[a].qubits)[0], s_])
+            self._do(["epr_deliver", s_])
+            self._do(["epr_start", b, free_b[0], 1 - s_])
+            self._do(["epr_deliver", 1 - s_])
+            if not self.dead:
+                self._do(["epr_resume", len(self.r.suspended) - 1])
+
+        @precondition(lambda self: any(not s_["sent"] for s_ in self.r.suspended))
+        @rule(k=st.integers(0, 3))
+        def epr_deliver(self, k):
+            socks = sorted({s_["sock"] for s_ in self.r.suspended if not s_["sent"]})
+            self._do(["epr_deliver", socks[k % len(socks)]])
 
         @precondition(lambda self: len(self.r.suspended) >= 1)
         @rule(i=st.integers(0, 5))
@@ -447,7 +496,7 @@ def make_machine(ctx, stt):
         def teardown(self):
             info = self.r.info
             nt = info["max_alive"] >= 2 and info["stops"] >= 1
-            labels = [f"alive:{info['max_alive']}"] + [k for k in ("stops", "reinit", "faults", "epr", "reserve", "suspended") if info[k]] + ([f"suspended-at-once:{info['max_suspended']}"] if info["max_suspended"] >= 2 else [])
+            labels = [f"alive:{info['max_alive']}"] + [k for k in ("stops", "reinit", "faults", "epr", "reserve", "suspended", "deferred") if info.get(k)] + ([f"suspended-at-once:{info['max_suspended']}"] if info["max_suspended"] >= 2 else [])
             h = self.r.history
             stt.case(h, nt, labels, sample={"history": h} if len(str(h)) < 600 else None)
 
